@@ -38,6 +38,23 @@ pub struct Case {
 
 /// the compressed stream of a case (gzip: possibly several members and optional header fields)
 pub fn encode_case(body: &[u8], case: &Case) -> Vec<u8> {
+    if case.encoding == "deflate" && case.gz_header != 0 {
+        // zlib header announcing a window smaller than 32 KiB (as deflateInit2 with windowBits < 15 writes it): legal
+        // whenever the body is not longer than the announced window (no back-reference can reach further)
+        let mut z = encode(body, "deflate", case.level, 0);
+        let cinfo = (case.gz_header as u32 - 1).min(6);
+        if z.len() >= 2 && body.len() <= (1usize << (cinfo + 8)) {
+            let cmf = ((cinfo << 4) | 8) as u8;
+            let mut flg = z[1] & 0b1100_0000; // keep FLEVEL, no preset dictionary
+            let rem = ((cmf as u32) * 256 + flg as u32) % 31;
+            if rem != 0 {
+                flg += (31 - rem) as u8;
+            }
+            z[0] = cmf;
+            z[1] = flg;
+        }
+        return z;
+    }
     if case.encoding != "gzip" || (case.members.is_empty() && case.gz_header == 0) {
         return encode(body, &case.encoding, case.level, case.lgwin);
     }
@@ -208,6 +225,8 @@ fn filter_lists() -> Vec<Vec<Value>> {
         vec![text_filter("prepend_text", "\u{e000}1\u{e001}")],
         vec![html_filter("replace", &["html", "head", "title"], None, "<title>new</title>")],
         vec![text_filter("replace_text", "replaced body")],
+        // the filters of two rules merged on one response: an HTML stage in front of a stage that replaces the body
+        vec![html_filter("append_child", &["html", "body"], None, "<i>\u{e000}1\u{e001}</i>"), text_filter("replace_text", "replaced body")],
         vec![html_filter("unknown", &["html"], None, "x")],
     ]
 }
@@ -290,8 +309,11 @@ fn record(case: &Case, report: &mut Report) {
             if stats.filter_active && !case.members.is_empty() {
                 report.count("gzip_streams_of_several_members");
             }
-            if stats.filter_active && case.gz_header != 0 {
+            if stats.filter_active && case.gz_header != 0 && case.encoding == "gzip" {
                 report.count("gzip_streams_with_optional_header_fields");
+            }
+            if stats.filter_active && case.gz_header != 0 && case.encoding == "deflate" {
+                report.count("zlib_streams_for_which_a_small_window_was_requested");
             }
             if stats.filter_active && stats.interior_cut {
                 report.nontrivial(mix(fnv(case.body_hex.as_bytes()), fnv(format!("{}{}{}{:?}{:?}", case.encoding, case.level, case.lgwin, case.cuts, case.filters).as_bytes())));
@@ -341,6 +363,10 @@ pub fn run(ctx: &Ctx, _args: &Args) -> i32 {
                     }
                     m.sort_unstable();
                     (m, rng.below(8) as u8)
+                } else if encoding == "deflate" && size_class <= 2 && rng.chance(1, 3) {
+                    // (for deflate the field selects the announced window: 1..=7 -> CINFO 0..=6, applied only when the
+                    // body fits into that window)
+                    (Vec::new(), rng.range(1, 7) as u8)
                 } else {
                     (Vec::new(), 0u8)
                 };
